@@ -34,6 +34,57 @@ func init() {
 	probes["O19"] = probeO19
 	probes["O20"] = probeO20
 	probes["O21"] = probeO21
+	probes["O22"] = probeO22
+	probes["O23"] = probeO23
+	probes["O24"] = probeO24
+}
+
+func probeO23() (bool, string) {
+	return guard(func() (bool, string) {
+		c, _ := ucfg.NewFrom(map[string]interface{}{"a": ""})
+		var t struct {
+			A interface{} `validate:"nonzero"`
+		}
+		err := c.Unpack(&t)
+		return err == nil, fmt.Sprintf("interface{} field with validate:nonzero, a: \"\": Unpack = %v", err)
+	})
+}
+
+type probeDflt struct {
+	A int `config:"a" validate:"min=1"`
+}
+
+func probeO24() (bool, string) {
+	return guard(func() (bool, string) {
+		c, _ := ucfg.NewFrom(map[string]interface{}{"a": 5})
+		var t struct {
+			D probeDflt `config:"d"`
+		}
+		err := c.Unpack(&t)
+		if err == nil {
+			return true, "a default violating min=1 was accepted"
+		}
+		return !strings.Contains(err.Error(), "'d.a'"), err.Error()
+	})
+}
+
+type probeLevel string
+
+func probeO22() (bool, string) {
+	steps := 0
+	zzsimhook.OnTick = func(string) {
+		steps++
+		if steps > 5000 {
+			panic("Unpack into a named string type does not terminate")
+		}
+	}
+	defer func() { zzsimhook.OnTick = nil }()
+	return guard(func() (bool, string) {
+		c, _ := ucfg.NewFrom(map[string]interface{}{"l": "info"})
+		var t struct{ L probeLevel }
+		err := c.Unpack(&t)
+		return err != nil || t.L != "info", fmt.Sprint(err, t)
+	})
 }
 
 func guard(f func() (bool, string)) (rep bool, detail string) {
